@@ -268,6 +268,22 @@ def scn_index_maps(T, case):
     C18.scn_validators(Renamed(T, "C18.", "C01.config."), case)
 
 
+# ------------------------------------------------------------------------------------ which filter's weights reach which function
+def cases_filter_rows(tier):
+    from contracts import C05
+
+    return C05.cases_rows(tier)
+
+
+def scn_filter_rows(T, case):
+    """'Each function uses the weights of the filter mapped to it': every combination of present / absent objective and constraint
+    maps, unfiltered entries next to filtered ones, two filters (C05's row-mapping scenario under this property's prefix)."""
+    from contracts import C05
+    from contracts.reuse import Renamed
+
+    C05.scn_rows(Renamed(T, "C05.rows.", "C01.rows."), case)
+
+
 SCENARIOS = [
     Scenario("calculate_functions", scn_functions, cases_functions, {"quick": 2, "thorough": 10}),
     Scenario("calculate_functions_stddev_given_weights", scn_functions, cases_stddev, {"quick": 5, "thorough": 20}),
@@ -276,6 +292,7 @@ SCENARIOS = [
     Scenario("plan_steps_hand_over", scn_steps, cases_steps, {"quick": 1, "thorough": 2}),
     Scenario("filters_failures_and_combined_requests", scn_filters_and_failures, cases_filters_and_failures, {"quick": 5, "thorough": 30}),
     Scenario("validated_estimator_and_filter_maps", scn_index_maps, cases_index_maps, {"quick": 2, "thorough": 10}),
+    Scenario("filter_rows", scn_filter_rows, cases_filter_rows, {"quick": 3, "thorough": 20}),
 ]
 
 MANIFEST = {
